@@ -1,19 +1,24 @@
 #!/bin/bash
-# usage: tools/harmlesscheck.sh <ID> <outdir> : apply a behaviour-preserving patch and run EVERY check; any VIOLATION is a false alarm
-ID=$1; OUT=$2
-cd /repo || exit 2
-if ! git diff --quiet -- . ':!verif_contracts.go' ':!cmd/desync/verif_contracts.go'; then echo "/repo not clean"; exit 2; fi
-git apply "$OUT/patch.diff" || { echo "patch does not apply"; exit 2; }
+# usage: tools/harmlesscheck.sh <ID> <outdir> [NAME] : apply a behaviour-preserving patch to a scratch copy of /repo and
+# run EVERY check against it; any VIOLATION is a false alarm. /repo itself is not touched.
+ID=$1; OUT=$2; NAME=${3:-harmless-$ID}
 export GOFLAGS=-mod=mod GOPROXY=off GOSUMDB=off GOTOOLCHAIN=local
-go build ./... || echo BUILD-FAIL
-cd /verif
-for p in C01 C02 C03 C04 C05 C06 C07 C08 C09 C10 C11 C12 C13 C14 C15 C16 C17 C18 C19 C20; do
-  out=$(timeout 900 ./bin/gocv check $p 2>&1); rc=$?
-  if [ $rc -ne 0 ] || echo "$out" | grep -q "VIOLATION\|STALE"; then
-    echo "== $p rc=$rc"; echo "$out" | grep "VIOLATION\|STALE\|^$p:" | head -8 | cut -c1-220
+T=$(mktemp -d /tmp/gocv-harmless-XXXXXX)
+trap 'rm -rf "$T"' EXIT
+rsync -a --exclude .git /repo/ "$T/repo/"
+( cd "$T/repo" && git apply "$OUT/patch.diff" ) || { echo "patch does not apply"; exit 2; }
+( cd "$T/repo" && go build ./... ) || echo BUILD-FAIL
+mkdir -p "$T/verif"
+for sub in stubs baseline replay; do cp -r /verif/$sub "$T/verif/" 2>/dev/null; done
+cp /verif/known_findings.json "$T/verif/" 2>/dev/null
+run() {
+  p=$1
+  out=$(timeout 900 /verif/bin/gocv check $p --repo "$T/repo" --verif "$T/verif" 2>&1); rc=$?
+  if [ $rc -ne 0 ] || echo "$out" | grep -q "VIOLATION\|STALE\|UNDECIDED\|ENGINE"; then
+    echo "== $p rc=$rc"; echo "$out" | grep "VIOLATION\|STALE\|UNDECIDED\|ENGINE\|^$p:" | head -8 | cut -c1-260
   fi
-done
-git -C /repo apply -R "$OUT/patch.diff" || echo REVERT-FAILED
-git -C /verif checkout -- evidence 2>/dev/null
-mkdir -p /verif/seeded/harmless-$ID && cp "$OUT"/patch.diff "$OUT"/meta.json /verif/seeded/harmless-$ID/ 2>/dev/null
-echo "done harmless-$ID"
+}
+export -f run; export T
+printf '%s\n' C01 C02 C03 C04 C05 C06 C07 C08 C09 C10 C11 C12 C13 C14 C15 C16 C17 C18 C19 C20 | xargs -P 6 -I{} bash -c 'run {}'
+mkdir -p /verif/seeded/$NAME && cp "$OUT"/patch.diff "$OUT"/meta.json /verif/seeded/$NAME/ 2>/dev/null
+echo "done $NAME"
